@@ -93,9 +93,63 @@ func runC04(p *core.Prog, r *core.Report) {
 	newMux := p.Inl(newMuxSrc)
 	// roles: the route lookup = function called from ServeHTTP that takes *Params; the registration = function called from Handle with the same tree type
 	var find, parse, methodFn *ssa.Function
-	for _, c := range staticCalls(p).callees[serve] {
-		for _, prm := range c.Params {
-			if pt := ptrTo(prm.Type()); pt != nil && types.Identical(pt, params) {
+	// the route lookup: the function ServeHTTP reaches (directly or through a helper of its own) that takes the *Params to
+	// fill and returns the selected route (a pointer to a struct); ties are broken by call depth, then by name
+	{
+		level := []*ssa.Function{serve}
+		seenLv := map[*ssa.Function]bool{serve: true}
+		var cands []*ssa.Function
+		for depth := 0; depth < 3 && len(level) > 0; depth++ {
+			var next []*ssa.Function
+			for _, f := range level {
+				for _, c := range staticCalls(p).callees[f] {
+					if !seenLv[c] && p.InModule(c) && c.Blocks != nil && rootFn(c).Pkg == p.SPkgs["httpd"] {
+						seenLv[c] = true
+						next = append(next, c)
+					}
+				}
+			}
+			sort.Slice(next, func(i, j int) bool { return next[i].String() < next[j].String() })
+			for _, c := range next {
+				takes := false
+				for _, prm := range c.Params {
+					if pt := ptrTo(prm.Type()); pt != nil && types.Identical(pt, params) {
+						takes = true
+					}
+				}
+				res := c.Signature.Results()
+				returnsRoute := false
+				if res.Len() >= 1 {
+					if pt := ptrTo(res.At(0).Type()); pt != nil {
+						if _, isStruct := pt.Underlying().(*types.Struct); isStruct {
+							returnsRoute = true
+						}
+					}
+				}
+				recvIsParams := c.Signature.Recv() != nil && ptrTo(c.Signature.Recv().Type()) != nil && types.Identical(ptrTo(c.Signature.Recv().Type()), params)
+				if takes && returnsRoute && !recvIsParams {
+					cands = append(cands, c)
+				}
+			}
+			level = next
+		}
+		// among wrappers, the walk itself and tail helpers: the walk is the one that loops over the path…
+		for _, c := range cands {
+			if find == nil && outerLoop(c) != nil {
+				find = c
+			}
+		}
+		// …failing that, the one from which no other candidate is reachable
+		for _, c := range cands {
+			leaf := true
+			for f := range reachableFrom(p, c) {
+				for _, o := range cands {
+					if o != c && f == o {
+						leaf = false
+					}
+				}
+			}
+			if leaf && find == nil {
 				find = c
 			}
 		}
